@@ -11,7 +11,7 @@ TEST = "TestVerifHarness_NodeLoss"
 HDIRS = ["nodeloss"]
 COQ_TARGETS = ["Run/Run_NodeLoss.vo", "Run/Run_Backoff.vo", "Run/Run_Round.vo"]
 META = {
-    "text": "Theorems (Properties/C18.v) over Gallina models of (1) the client listener's reconnect decision (client/listener.go AcceptWithContext, plus the pinned pre-fix decision for the refutation of D4) and the accept loop around it, (2) Server.Shutdown (server/server.go) as the real step order interleaved with ALL schedules of the upstream handlers' asynchronous exits, (3) the leave reaching a notified peer composed over the shared gossip and syncer models (LeaveLocal, ApplyDelta of the leaver's full local delta, OnLeave, LookupEndpoint) for every leaver state, peer view, routing table and endpoint, the crash counterpart (detector verdict -> OnUnreachable -> not routed to), (4) recovery on the survivors as a composition statement over lookup_candidates and the local registry, and (5) how soon a listener redials: pkg/backoff (jitter as an oracle) and the timed retry loop of client/upstream.go - for every legal jitter sequence the loop never gives up, every wait lies in [min, 1.1 max + 1ns], waits double until capped, and once a node is reachable again a dial starts within one dial duration plus one capped wait (defaults: 16.5 s). The models are tied to the code by an in-process cluster of three REAL server nodes (server.NewServer/Start, 40 ms gossip interval; optionally three more live nodes, so that the leaver cannot notify every peer itself, or a fourth node that left / crashed earlier and is still remembered), real client listeners with stamping HTTP upstreams behind a one-URL TCP front, and requests to every survivor's proxy port: a node is lost gracefully (Server.Shutdown), by a crash (all its sockets closed abruptly, no Leave) or by a crash in the middle of its shutdown, idle / with upstreams connected / with requests in flight; an independent python monitor evaluates the property on the recorded timeline and the recorded states are replayed on the models inside Coq. The backoff model is tied to the REAL pkg/backoff.Backoff (scripted configurations, every (wait, ok) replayed in Coq with the observed wait as the jitter oracle) and to the REAL Upstream.connect / Listen loop against a loopback server failing the first N handshakes (the waits the loop announces in its own log records, server-side arrival times). Whom a departing node tells is modelled as well (Gossip/Round.v leave_run: shuffle and acknowledgements as oracles): only live peers that acknowledge, min(4, their number) of them, no error as soon as one acknowledges, with all acknowledging exactly the shutdown model's notified_of (C18_leave_told_sound, C18_leave_told_count, C18_leave_all_ack_is_notified_of, C18_leave_observation_legal), compared with the real Gossip.Leave on peers listening on loopback stream ports (departed, suspected, closed ports). Scenario graceful-stalled-peer: a live member that accepts the leave connection and never answers, 2 s grace period.",
+    "text": "Theorems (Properties/C18.v) over Gallina models of (1) the client listener's reconnect decision (client/listener.go AcceptWithContext, plus the pinned pre-fix decision for the refutation of D4) and the accept loop around it, (2) Server.Shutdown (server/server.go) as the real step order interleaved with ALL schedules of the upstream handlers' asynchronous exits, (3) the leave reaching a notified peer composed over the shared gossip and syncer models (LeaveLocal, ApplyDelta of the leaver's full local delta, OnLeave, LookupEndpoint) for every leaver state, peer view, routing table and endpoint, the crash counterpart (detector verdict -> OnUnreachable -> not routed to), (4) recovery on the survivors as a composition statement over lookup_candidates and the local registry, and (5) how soon a listener redials: pkg/backoff (jitter as an oracle) and the timed retry loop of client/upstream.go - for every legal jitter sequence the loop never gives up, every wait lies in [min, 1.1 max + 1ns], waits double until capped, and once a node is reachable again a dial starts within one dial duration plus one capped wait (defaults: 16.5 s). The models are tied to the code by an in-process cluster of three REAL server nodes (server.NewServer/Start, 40 ms gossip interval; optionally three more live nodes, so that the leaver cannot notify every peer itself, or a fourth node that left / crashed earlier and is still remembered), real client listeners with stamping HTTP upstreams behind a one-URL TCP front, and requests to every survivor's proxy port: a node is lost gracefully (Server.Shutdown), by a crash (all its sockets closed abruptly, no Leave) or by a crash in the middle of its shutdown, idle / with upstreams connected / with requests in flight; an independent python monitor evaluates the property on the recorded timeline and the recorded states are replayed on the models inside Coq. The backoff model is tied to the REAL pkg/backoff.Backoff (scripted configurations, every (wait, ok) replayed in Coq with the observed wait as the jitter oracle) and to the REAL Upstream.connect / Listen loop against a loopback server failing the first N handshakes (the waits the loop announces in its own log records, server-side arrival times). Whom a departing node tells is modelled as well (Gossip/Round.v leave_run: shuffle and acknowledgements as oracles): only live peers that acknowledge, min(4, their number) of them, no error as soon as one acknowledges, with all acknowledging exactly the shutdown model's notified_of (C18_leave_told_sound, C18_leave_told_count, C18_leave_all_ack_is_notified_of, C18_leave_observation_legal), compared with the real Gossip.Leave on peers listening on loopback stream ports (departed, suspected, closed ports). Scenario graceful-stalled-peer: a live member that accepts the leave connection and never answers, 2 s grace period. The legality check applied to the real Leave is proved sound and complete (C18_leave_observation_legal / _complete); which failed dials are retried is modelled (C18_transient_failures_are_retried, C18_fatal_answer_ends_loop; 14 statuses against the real connect loop); the k-th wait is at least min(2^k min, max) (C18_backoff_kth_wait).",
     "note": "PARTIAL. Proved: the decision logic, the shutdown bookkeeping under every schedule, that a notified peer marks the leaver left and LookupEndpoint never returns it, that a detected crash has the same effect, and the recovery composition under stated settledness hypotheses. Observed only (not proved): timing (Shutdown within the grace period, detector verdict, gossip convergence), process death (a crash is simulated in-process by closing every socket of the node), real reconnection (dial, yamux/websocket error reporting), and that every upstream handler returns after cancellation. Trusted: Coq kernel+VM, the hand-written models, the Go harness and the python translation.",
     "technique": "Coq proof (case analysis of the decision; invariant over all schedules of the shutdown sequence; composition over the proved gossip/syncer models) + model/implementation correspondence by replaying states recorded on a real 3-node cluster + independent timeline monitor + backoff / reconnection-loop model with the jitter as oracle (real pkg/backoff and real Upstream.connect) + leave-notification model (real Gossip.Leave)",
 }
